@@ -20,7 +20,8 @@ EXPLANATION = (
     'the too-long and no-parse paths, buffers per sentence; R11.5 the only state surviving from one sentence to the next '
     'is the result list (append only), the category table (append-only, id = position) and the C++ rule cache, whose two '
     'lambdas fill an entry only when absent and never erase.  Equality of results across histories when scores tie (heap '
-    'order) and the behaviour of multiprocessing itself are not decided.')
+    'order) and the behaviour of multiprocessing itself are not decided.'
+    ' Third round: no working object of parse_sentence has static / thread storage (locals:automatic).')
 TRUSTED = ['CPython ast', 'clang-14 front end', 'sa/pyx.py normaliser', 'multiprocessing.Pool.apply_async/.get semantics']
 
 REL = 'depccg/parsing.py'
@@ -170,6 +171,11 @@ def r_gather(repo, rep, R='R11.3'):
         (t_it, t_f), (r_it, r_f) = ret[2]
         okc = t_it == tasks[0] and not t_f and not r_f and r_it[0] == 'call' and not r_it[2] and not r_it[3] and r_it[1][0] == 'attr' \
             and r_it[1][2] == 'get' and r_it[1][1][0] == 'elem' and r_it[1][1][1] == t_it and ret[1][0] == 'elem' and ret[1][1] == r_it
+        if not okc:
+            # the same walk with the task list's own comprehension fused in by the term normaliser:
+            # [r for chunk in enumerate(chunks) for r in <task of chunk>.get()]
+            okc = t_it == tasks[0][2][0][0] and not t_f and not r_f and r_it == ('call', A(tasks[0][1], 'get'), (), ()) \
+                and ret[1][0] == 'elem' and ret[1][1] == r_it
     rep.check(okc, R, w, 'run:gather-in-order', 'results are collected by walking the task list in order and concatenating each task\'s results',
               'results are not gathered as [r for task in tasks for r in task.get()]: %s' % (show(ret)[:100] if ret else None))
     # direct path
@@ -254,4 +260,5 @@ def check(repo, rep, tier):
     rc.r_priority(m, rep, 'R11.5')
     rc.r_ids_not_ordered(m, rep, 'R11.5')
     rc.r_search_loop(m, rep, 'R11.4')
+    rc.r_locals_automatic(m, rep, 'R11.5')    # no working object of parse_sentence survives from one sentence to the next
     rep.floor('push sites (search loop analysed)', len(m.sites), 5)
